@@ -561,4 +561,113 @@ theorem channel_read_map_eq (s : CChannel) (r : CReader) (hw : Wf s)
               · (simp_all [abs, absRd, Wf, holdsOf_set_pos, holdsOf_set_cyc, List.set_set, getD_set, ChannelState_Mapped, ChannelState_Unmapped,
             Channel_Error, Channel_Expected_Unmapped_Reader] <;> omega)
 
+theorem holdsOf_set_eq_iff (p c : List Nat) (n i : Nat) (h : Hold) (hi : i < n) :
+    (holdsOf p c n).set i h = holdsOf p c n ↔ h = ⟨p.getD i 0, c.getD i 0⟩ := by
+  have hl : i < (holdsOf p c n).length := by rw [holdsOf_length]; exact hi
+  constructor
+  · intro e
+    have e1 : ((holdsOf p c n).set i h).getD i default = h := by simp [List.getD_eq_getElem?_getD, hl]
+    rw [e, holdsOf_getD _ _ _ _ hi] at e1
+    exact e1.symm
+  · intro e
+    subst e
+    apply List.ext_getElem
+    · simp
+    · intro j h1 h2
+      simp only [List.length_set, holdsOf_length] at h1 h2
+      by_cases hj : i = j
+      · subst hj; simp [holdsOf, List.getElem_set, List.getD_eq_getElem?_getD]
+      · simp [List.getElem_set, hj]
+
+theorem reader_initialize_state (s : CChannel) (r : CReader) : (reader_initialize s r).2.2.state = r.state := by
+  unfold reader_initialize
+  split
+  · rfl
+  · simp only []
+    split <;> rfl
+
+/-- within the usage rules (the reader is not mapped) `channel_read_map` notifies **exactly** when it moved the reader's bookmark —
+the condition under which the interleaving model's `notifies` lets the call end in a `notify` step -/
+theorem channel_read_map_notifies_iff (s : CChannel) (r : CReader) (hw : Wf s)
+    (hroom : r.id = 0 → s.holds_n < s.holds_pos.length ∧ s.holds_n < s.holds_cycles.length) (hid : r.id ≤ s.holds_n)
+    (hun : r.state ≠ ChannelState_Mapped) :
+    (channel_read_map s r).2.1.notified =
+      s.notified + (if (readMap (abs s) (absRd r)).1.holds ≠ (readerInit (abs s) (absRd r)).1.holds then 1 else 0) := by
+  obtain ⟨e1, e2, e3, e4, e5, e6, e7, e8, e9⟩ := reader_initialize_eq s r hroom
+  unfold channel_read_map readMap
+  cases hri : reader_initialize s r with
+  | mk ret p =>
+    cases p with
+    | mk s1 r1 =>
+      rw [hri] at e1 e2 e3 e4 e5 e6 e7 e8 e9
+      simp only at e1 e2 e3 e4 e5 e6 e7 e8 e9
+      have hun1 : r1.state ≠ ChannelState_Mapped := by
+        by_cases h0 : r.id = 0
+        · have := reader_initialize_state s r; rw [hri] at this; simp only at this; rw [this]; exact hun
+        · have := e8 h0; simp only [Prod.mk.injEq] at this; rw [this.2]; exact hun
+      have hid1 : r1.id ≤ s1.holds_n := by
+        by_cases h0 : r.id = 0
+        · rw [e9 h0]; exact Nat.le_refl _
+        · have := e8 h0; simp only [Prod.mk.injEq] at this; rw [this.1, this.2]; exact hid
+      obtain ⟨wp, wc⟩ := e6 hw
+      have hi : r1.id - 1 < s1.holds_n := by omega
+      have hip : r1.id - 1 < s1.holds_pos.length := by omega
+      have hic : r1.id - 1 < s1.holds_cycles.length := by omega
+      cases hmi : readerInit (abs s) (absRd r) with
+      | mk c r' =>
+        rw [hmi] at e1 e2
+        simp only at e1 e2
+        subst e1 e2
+        simp only [Nat.zero_add]
+        unfold readMapAt readMapCore setHold
+        have hg : (abs s1).holds.getD ((absRd r1).id - 1) default = ⟨s1.holds_pos.getD (r1.id - 1) 0, s1.holds_cycles.getD (r1.id - 1) 0⟩ :=
+          holdsOf_getD _ _ _ _ hi
+        simp only [hg]
+        generalize hP : s1.holds_pos.getD (r1.id - 1) 0 = P
+        generalize hC : s1.holds_cycles.getD (r1.id - 1) 0 = Cy
+        rw [← e3]
+        dsimp only [abs, absRd]
+        by_cases hm : r1.state = ChannelState_Mapped
+        · (simp_all [holdsOf_set_eq_iff, abs, absRd, Wf, holdsOf_set_pos, holdsOf_set_cyc, List.set_set, getD_set, ChannelState_Mapped, ChannelState_Unmapped,
+            Channel_Error, Channel_Expected_Unmapped_Reader] <;> omega)
+        · simp only [hm, ↓reduceIte]
+          by_cases hPe : P = s1.head
+          · by_cases hCe : Cy = s1.cycle
+            · (simp_all [holdsOf_set_eq_iff, abs, absRd, Wf, holdsOf_set_pos, holdsOf_set_cyc, List.set_set, getD_set, ChannelState_Mapped, ChannelState_Unmapped,
+            Channel_Error, Channel_Expected_Unmapped_Reader] <;> omega)
+            · have hnl : ¬ P < s1.head := by omega
+              simp only [hPe, hCe, hnl, ↓reduceIte, Nat.lt_irrefl]
+              by_cases hC1 : s1.cycle = Cy + 1
+              · by_cases hN : s1.high - s1.head = 0
+                · by_cases hH : s1.head = 0
+                  · (simp_all [holdsOf_set_eq_iff, abs, absRd, Wf, holdsOf_set_pos, holdsOf_set_cyc, List.set_set, getD_set, ChannelState_Mapped, ChannelState_Unmapped,
+            Channel_Error, Channel_Expected_Unmapped_Reader] <;> omega)
+                  · (simp_all [holdsOf_set_eq_iff, abs, absRd, Wf, holdsOf_set_pos, holdsOf_set_cyc, List.set_set, getD_set, ChannelState_Mapped, ChannelState_Unmapped,
+            Channel_Error, Channel_Expected_Unmapped_Reader] <;> omega)
+                · (simp_all [holdsOf_set_eq_iff, abs, absRd, Wf, holdsOf_set_pos, holdsOf_set_cyc, List.set_set, getD_set, ChannelState_Mapped, ChannelState_Unmapped,
+            Channel_Error, Channel_Expected_Unmapped_Reader] <;> omega)
+              · (simp_all [holdsOf_set_eq_iff, abs, absRd, Wf, holdsOf_set_pos, holdsOf_set_cyc, List.set_set, getD_set, ChannelState_Mapped, ChannelState_Unmapped,
+            Channel_Error, Channel_Expected_Unmapped_Reader] <;> omega)
+          · simp only [hPe, ↓reduceIte]
+            by_cases hLt : P < s1.head
+            · have hnz : ¬ (s1.head - P = 0) := by omega
+              by_cases hCe : Cy = s1.cycle
+              · (simp_all [holdsOf_set_eq_iff, abs, absRd, Wf, holdsOf_set_pos, holdsOf_set_cyc, List.set_set, getD_set, ChannelState_Mapped, ChannelState_Unmapped,
+            Channel_Error, Channel_Expected_Unmapped_Reader] <;> omega)
+              · (simp_all [holdsOf_set_eq_iff, abs, absRd, Wf, holdsOf_set_pos, holdsOf_set_cyc, List.set_set, getD_set, ChannelState_Mapped, ChannelState_Unmapped,
+            Channel_Error, Channel_Expected_Unmapped_Reader] <;> omega)
+            · simp only [hLt, ↓reduceIte]
+              by_cases hC1 : s1.cycle = Cy + 1
+              · by_cases hN : s1.high - P = 0
+                · by_cases hH : s1.head = 0
+                  · (simp_all [holdsOf_set_eq_iff, abs, absRd, Wf, holdsOf_set_pos, holdsOf_set_cyc, List.set_set, getD_set, ChannelState_Mapped, ChannelState_Unmapped,
+            Channel_Error, Channel_Expected_Unmapped_Reader] <;> omega)
+                  · (simp_all [holdsOf_set_eq_iff, abs, absRd, Wf, holdsOf_set_pos, holdsOf_set_cyc, List.set_set, getD_set, ChannelState_Mapped, ChannelState_Unmapped,
+            Channel_Error, Channel_Expected_Unmapped_Reader] <;> omega)
+                · (simp_all [holdsOf_set_eq_iff, abs, absRd, Wf, holdsOf_set_pos, holdsOf_set_cyc, List.set_set, getD_set, ChannelState_Mapped, ChannelState_Unmapped,
+            Channel_Error, Channel_Expected_Unmapped_Reader] <;> omega)
+              · (simp_all [holdsOf_set_eq_iff, abs, absRd, Wf, holdsOf_set_pos, holdsOf_set_cyc, List.set_set, getD_set, ChannelState_Mapped, ChannelState_Unmapped,
+            Channel_Error, Channel_Expected_Unmapped_Reader] <;> omega)
+
+
 end AcqVerif.Channel.Translated
